@@ -51,6 +51,21 @@ impl NodeRec {
     }
 }
 
+/// Node ids are opaque; the pointer-based backend uses addresses, which do
+/// not fit TLC's 32-bit integers.  They are renumbered densely in order of
+/// first appearance (transport only: equal ids stay equal, distinct ids stay
+/// distinct within one history).
+static ID_MAP: std::sync::Mutex<Option<std::collections::HashMap<usize, i64>>> = std::sync::Mutex::new(None);
+pub fn reset_ids() {
+    *ID_MAP.lock().unwrap() = Some(Default::default());
+}
+pub fn norm_id(raw: usize) -> i64 {
+    let mut g = ID_MAP.lock().unwrap();
+    let m = g.get_or_insert_with(Default::default);
+    let next = m.len() as i64 + 1;
+    *m.entry(raw).or_insert(next)
+}
+
 pub trait Kind: Function + Sized + 'static {
     const KIND: &'static str;
     fn new_manager(cap: usize, cache: usize, threads: u32) -> Self::ManagerRef;
@@ -81,7 +96,7 @@ macro_rules! impl_kind {
             fn edge_code<'id>(m: &Self::Manager<'id>, e: &EdgeOfFunc<'id, Self>) -> (i64, u32) {
                 let tag = e.tag().as_usize() as u32;
                 match m.get_node(e) {
-                    Node::Inner(_) => (e.node_id() as i64, tag),
+                    Node::Inner(_) => (norm_id(e.node_id()), tag),
                     Node::Terminal(t) => {
                         let t: &$term = t.borrow();
                         (-1 - (t.as_usize() as i64), tag)
@@ -106,7 +121,7 @@ macro_rules! impl_kind {
                             .map(|c| <Self as Kind>::edge_code(m, &*c))
                             .collect();
                         out.push(NodeRec {
-                            id: e.node_id() as i64,
+                            id: norm_id(e.node_id()),
                             lvl_listed: lno,
                             lvl_stored: node.level(),
                             rc: node.ref_count(),
@@ -127,7 +142,7 @@ macro_rules! impl_kind {
                     out: &mut Vec<NodeRec>,
                 ) {
                     if let Node::Inner(node) = m.get_node(e) {
-                        let id = e.node_id() as i64;
+                        let id = norm_id(e.node_id());
                         if !seen.insert(id) {
                             return;
                         }
